@@ -19,4 +19,5 @@ CONSTANTS
   ScionMacErrPanics = TRUE
   ScionTsOptUnchecked = TRUE
   ScionTsOptTrusted = TRUE
-INVARIANTS TypeOK OutcomeConsistent NeverDead NoSpin SentinelNotLost
+  CmsgLenUnchecked = TRUE
+INVARIANTS TypeOK OutcomeConsistent NeverDead NoSpin EveryIterationAdvances SentinelNotLost
